@@ -324,7 +324,8 @@ impl crate::drive::Driveable for OrswotEng {
     fn random_cmd(s: &S, _r: usize, rng: &mut rand::rngs::StdRng, d: &Dims) -> Option<Value> {
         use rand::Rng;
         let m = rng.gen_range(1..=d.m) as u64;
-        let present: Vec<u64> = s.read().val.iter().map(|x| *x as u64).collect();
+        let mut present: Vec<u64> = s.read().val.iter().map(|x| *x as u64).collect();
+        present.sort(); // HashSet order must not reach the choice: the same seed gives the same histories
         let roll: f64 = rng.gen();
         Some(if roll < 0.45 {
             json!({"c": "add", "m": m, "ms": []})
